@@ -528,6 +528,36 @@ class MFn(tr.Fn):
             merged.append("([%s] : List Int)" % ", ".join(run))
         return ("(" + " ++ ".join(merged) + ")") if len(merged) > 1 else merged[0], n
 
+    def module_struct(self, name):
+        """format string of a module-level `NAME = struct.Struct("<literal>")` that is the ONLY binding of NAME in the
+        module (no `global NAME`, no other store, no def / class / import of that name), with `struct` the standard
+        module; None otherwise"""
+        m = self.mod
+        stores, val = 0, None
+        for n in ast.walk(m.tree):
+            if isinstance(n, ast.Name) and n.id == name and isinstance(n.ctx, (ast.Store, ast.Del)):
+                stores += 1
+            elif isinstance(n, (ast.FunctionDef, ast.AsyncFunctionDef, ast.ClassDef)) and n.name == name:
+                stores += 2
+            elif isinstance(n, (ast.Global, ast.Nonlocal)) and name in n.names:
+                stores += 2
+            elif isinstance(n, (ast.Import, ast.ImportFrom)):
+                for a in n.names:
+                    if (a.asname or a.name.split(".")[0]) == name or a.name == "*":
+                        stores += 2
+        if stores != 1:
+            return None
+        for n in m.tree.body:
+            if isinstance(n, ast.Assign) and len(n.targets) == 1 and isinstance(n.targets[0], ast.Name) and n.targets[0].id == name:
+                val = n.value
+        if not (isinstance(val, ast.Call) and isinstance(val.func, ast.Attribute) and val.func.attr == "Struct"
+                and isinstance(val.func.value, ast.Name) and val.func.value.id == "struct" and len(val.args) == 1
+                and not val.keywords and isinstance(val.args[0], ast.Constant) and isinstance(val.args[0].value, str)):
+            return None
+        if not m.imported("struct", "struct"):
+            return None
+        return val.args[0].value
+
     def call(self, e, env):
         f = e.func
         if e.keywords:
@@ -542,6 +572,14 @@ class MFn(tr.Fn):
             fmt = self.cls.lean_fmt(fs, where)
             op = f.attr
             self.notes.append("self.%s is struct.Struct(%r) (assigned only in __init__)" % (f.value.attr, fs))
+        elif isinstance(f, ast.Attribute) and isinstance(f.value, ast.Name) and f.attr in ("pack", "unpack", "unpack_from") \
+                and f.value.id not in env and f.value.id not in self.locals and self.module_struct(f.value.id) is not None:
+            # NAME.pack(…) with NAME a module-level `struct.Struct("<literal>")` bound exactly once: it IS that format
+            # (the refactoring "hoist the format into a precompiled Struct" keeps the regenerated definition the same)
+            fs = self.module_struct(f.value.id)
+            fmt = self.cls.lean_fmt(fs, where)
+            op = f.attr
+            self.notes.append("%s is the module constant struct.Struct(%r) (bound exactly once)" % (f.value.id, fs))
         elif isinstance(f, ast.Attribute) and isinstance(f.value, ast.Name) and f.value.id == "struct" and "struct" not in env \
                 and f.attr in ("pack", "unpack", "unpack_from") and args \
                 and (f.attr == "unpack_from" or any(isinstance(a, ast.Starred) for a in args) or isinstance(self.class_const(args[0]), str)):
